@@ -1,3 +1,4 @@
-import IV.Model.CleanProto
-/-! driver for C09: the protocol handler lives in IV/Model/CleanProto.lean (shared by C09 and C10) -/
-def main : IO Unit := IV.Proto.serveState ({} : IV.CleanProto.D) IV.CleanProto.handle
+import IV.Model.CleanReportProto
+/-! driver for C09: the protocol handler of IV/Model/CleanProto.lean (shared by C09 and C10) extended by the
+`report` request of IV/Model/CleanReportProto.lean -/
+def main : IO Unit := IV.Proto.serveState ({} : IV.CleanProto.D) IV.CleanReportProto.handle
